@@ -265,7 +265,7 @@ constexpr auto inverse_in(TargetUnits target_units, Quantity<U, R> q) {
     // getting represented as 0, which would happen for values over the threshold.)
 
     // This will fail at compile time for types that can't hold 1'000'000.
-    constexpr R threshold = 1'000'000;
+    constexpr R threshold{1'000'000};
 
     constexpr auto UNITY = make_constant(UnitProductT<>{});
 
